@@ -83,6 +83,7 @@ Definition regex_id (r : regexdef) : option N :=
   | RPath "RE2" => Some 2%N
   | RPath "RE3" => Some 3%N
   | RPath "RE4" => Some 4%N
+  | RPath "RE5" => Some 4%N        (* the same regex, built with RegexBuilder::case_insensitive(true) *)
   | _ => None
   end.
 
